@@ -202,6 +202,13 @@ func vfC17DriverGoroutines() []string {
 	return out
 }
 
+// vfC17OnFlusher reports whether the calling goroutine is a refreshDebouncer's flusher (the ring refresh).
+func vfC17OnFlusher() bool {
+	buf := make([]byte, 16384)
+	n := runtime.Stack(buf, false)
+	return strings.Contains(string(buf[:n]), "refreshDebouncer).flusher")
+}
+
 func vfC17CurGoroutineID() string {
 	buf := make([]byte, 64)
 	n := runtime.Stack(buf, false)
@@ -504,7 +511,7 @@ func vfC17RandomRun(seed int64, sched int) (res vfC17SessResult, err error) {
 			time.Sleep(time.Duration(rng.Intn(20)) * time.Millisecond)
 		}
 	}
-	mode := rng.Intn(5)
+	mode := rng.Intn(6)
 	var closers func()
 	switch mode {
 	case 0:
@@ -532,6 +539,53 @@ func vfC17RandomRun(seed int64, sched int) (res vfC17SessResult, err error) {
 		r.queryBurst(rng, &wg, 20, &stop)
 		time.Sleep(time.Duration(rng.Intn(5)) * time.Millisecond)
 		closers = s.Close
+	case 5:
+		// Close while a refresh is in progress (parked between GetHosts and the host loop) and further
+		// refreshes are requested - by the harness and, when the control connection is lost at that
+		// moment, by controlConn.reconnect on a driver goroutine
+		plan = append(plan, "close-with-refresh-in-progress-and-pending")
+		parked := make(chan struct{})
+		release := make(chan struct{})
+		var once sync.Once
+		r.mu.Lock()
+		r.filter = func(h *HostInfo) {
+			if !vfC17OnFlusher() {
+				return
+			}
+			fire := false
+			once.Do(func() { fire = true })
+			if fire {
+				close(parked)
+				<-release
+			}
+		}
+		r.mu.Unlock()
+		wg.Add(1)
+		go func() { defer wg.Done(); s.refreshRing() }()
+		select {
+		case <-parked:
+		case <-time.After(time.Second):
+		}
+		if rng.Intn(2) == 0 {
+			if ch := s.control.getConn(); ch != nil && ch.conn != nil {
+				for _, d := range r.liveNodeConns() {
+					if net.Conn(d.mem) == ch.conn.conn {
+						plan = append(plan, "kill-control")
+						d.nc.Close()
+					}
+				}
+			}
+		}
+		for i := 0; i < 1+rng.Intn(2); i++ {
+			wg.Add(1)
+			go func() { defer wg.Done(); s.refreshRing() }()
+		}
+		time.Sleep(time.Duration(rng.Intn(8000)) * time.Microsecond)
+		relDelay := time.Duration(rng.Intn(6000)) * time.Microsecond
+		closers = func() {
+			go func() { time.Sleep(relDelay); close(release) }()
+			s.Close()
+		}
 	default:
 		plan = append(plan, "close-with-refresh")
 		wg.Add(1)
@@ -978,6 +1032,142 @@ func vfC17ScenFlusherSelfWait() vfC17ScenResult {
 	return res
 }
 
+// Close while the ring refresher is busy with a refresh and further refreshes have been requested:
+// one by the harness through Session.refreshRing(), one by controlConn.reconnect (started by
+// controlConn.HandleError when the control connection is lost during the refresh).  stop() must wake
+// every listener (the refresh result or a closed channel): both callers return, no driver goroutine
+// stays parked in refreshRing, Close returns.
+func vfC17ScenCloseBusyRefresherPending() vfC17ScenResult {
+	res := vfC17ScenResult{Name: "close-while-refresh-busy-and-pending"}
+	r, err := vfC17NewRun(1, 2, 1, nil)
+	if err != nil {
+		res.Err = err.Error()
+		return res
+	}
+	s := r.sess
+	sc := vfNewScope()
+	var nNow int32
+	marked := make(chan struct{})
+	var onceMarked sync.Once
+	sc.OnEvent = func(point string, obj interface{}, _ string, a int, err error) {
+		switch point {
+		case "d_refresh_now":
+			atomic.AddInt32(&nNow, 1)
+		case "d_stop_marked":
+			onceMarked.Do(func() { close(marked) })
+		}
+	}
+	sc.Bind(s.ringRefresher)
+	defer sc.Unbind(s.ringRefresher)
+	parked := make(chan struct{})
+	release := make(chan struct{})
+	var once sync.Once
+	r.mu.Lock()
+	r.filter = func(h *HostInfo) {
+		if !vfC17OnFlusher() {
+			return // the filter is also consulted by handleNodeConnected, setupConn, ...
+		}
+		fire := false
+		once.Do(func() { fire = true })
+		if fire {
+			close(parked)
+			<-release
+		}
+	}
+	r.mu.Unlock()
+	var callers sync.WaitGroup
+	callers.Add(1)
+	go func() { defer callers.Done(); s.refreshRing() }() // served by the refresh that is about to park
+	select {
+	case <-parked:
+	case <-time.After(2 * time.Second):
+		res.Err = "the refresh did not reach the host loop"
+		close(release)
+		s.Close()
+		return res
+	}
+	baseline := map[string]bool{}
+	for _, g := range vfC17DriverGoroutines() {
+		baseline[vfC17GoroutineID(g)] = true
+	}
+	// the control connection is lost now: HandleError -> reconnect -> new connection -> refreshRing()
+	ch := s.control.getConn()
+	killed := false
+	for _, d := range r.liveNodeConns() {
+		if ch != nil && ch.conn != nil && net.Conn(d.mem) == ch.conn.conn {
+			d.nc.Close()
+			killed = true
+		}
+	}
+	if !killed {
+		res.Err = "control connection not found among the dialed connections"
+		close(release)
+		s.Close()
+		return res
+	}
+	callers.Add(1)
+	go func() { defer callers.Done(); s.refreshRing() }() // pending: the refresher is busy
+	if !vfC17Poll(2*time.Second, func() bool { return atomic.LoadInt32(&nNow) >= 3 }) {
+		res.Err = fmt.Sprintf("reconnect did not ask for a refresh (refreshNow calls: %d)", atomic.LoadInt32(&nNow))
+		close(release)
+		s.Close()
+		return res
+	}
+	closed := make(chan struct{})
+	go func() { s.Close(); close(closed) }()
+	select {
+	case <-marked:
+	case <-time.After(2 * time.Second):
+		res.Err = "Close did not reach refreshDebouncer.stop"
+		close(release)
+		return res
+	}
+	close(release)
+	select {
+	case <-closed:
+	case <-time.After(vfC17CloseWatchdog):
+		res.Viol = "session-close-hang:" + vfC17HangSig(vfGoroutineDump(), s)
+		res.What = "Session.Close did not return while the ring refresher was busy and further refreshes were pending"
+		return res
+	}
+	okc, _ := vfWithin(vfC17CloseWatchdog, callers.Wait)
+	var gs []string
+	mine := func() []string {
+		// driver goroutines parked in refreshRing that were not there before this scenario lost its
+		// control connection (the receiver pointer printed in a frame is not reliable enough to tell
+		// the sessions of parallel scenarios apart)
+		var out []string
+		for _, g := range vfC17DriverGoroutines() {
+			if strings.Contains(g, "gocql.(*Session).refreshRing") && !baseline[vfC17GoroutineID(g)] {
+				out = append(out, g)
+			}
+		}
+		return out
+	}
+	vfC17Poll(2*time.Second, func() bool { gs = mine(); return len(gs) == 0 })
+	res.Obs = fmt.Sprintf("Close returned; refreshRing callers returned: %v; driver goroutines parked in refreshRing: %d", okc, len(gs))
+	switch {
+	case len(gs) > 0:
+		fl := map[string]bool{}
+		for _, g := range gs {
+			fl[vfC17EntryFunc(g)] = true
+		}
+		var names []string
+		for f := range fl {
+			names = append(names, f)
+		}
+		sort.Strings(names)
+		res.Viol = "goroutine-leak-after-close:" + strings.Join(names, ",") + "-parked-in-refreshRing"
+		res.What = "after Session.Close returned a driver goroutine (" + strings.Join(names, ",") + ") is still parked in " +
+			"Session.refreshRing(): its refreshNow request was pending when stop() arrived and its listener was never resolved"
+		res.Detail = gs[0]
+	case !okc:
+		res.Viol = "refresh-listener-unanswered:session-refreshRing-caller"
+		res.What = "a Session.refreshRing() call that was pending when Session.Close stopped the refresher never returned"
+	}
+	return res
+}
+
 func TestVfC17Scenarios(t *testing.T) {
 	outPath := os.Getenv("VF_TRACES")
 	if outPath == "" {
@@ -989,7 +1179,7 @@ func TestVfC17Scenarios(t *testing.T) {
 	}
 	defer out.Close()
 	fs := []func() vfC17ScenResult{vfC17ScenHeartbeatAfterClose, vfC17ScenEventStopTwice, vfC17ScenRefreshAfterStop,
-		vfC17ScenLatePool, vfC17ScenFlusherSelfWait, vfC17ScenCloseAfterRefresh}
+		vfC17ScenLatePool, vfC17ScenFlusherSelfWait, vfC17ScenCloseAfterRefresh, vfC17ScenCloseBusyRefresherPending}
 	results := make([]vfC17ScenResult, len(fs))
 	var wg sync.WaitGroup
 	for i, f := range fs {
